@@ -170,6 +170,18 @@ func (w *World) verifyFn(key string, opt Options) (res *FnResult) {
 		x.assume(st, x.clauseTerm(st, cl, env))
 	}
 	st.script = append(st.script, entry{kind: 'v', name: "cover:requires"})
+	// an implementation of an interface method with a type contract must conform to it
+	if fn.Signature.Recv() != nil {
+		if slot := ifaceSlots[con.Pkg+"."+fn.Name()]; slot != "" && slot != key {
+			ok, why := x.conforms(key, slot)
+			g := "true"
+			if !ok {
+				g = "false"
+				x.notes = append(x.notes, "typecontract:impl: "+why)
+			}
+			x.check(st, "typecontract:impl:"+con.Pkg+"."+fn.Name(), g, "contract")
+		}
+	}
 	x.findLoops()
 	for _, li := range x.loops {
 		if li.spec != nil && li.spec.Unroll > 0 {
@@ -402,7 +414,12 @@ func (x *Exec) solve(res *FnResult, opt Options) {
 	var jobs []job
 	for pi, p := range x.paths {
 		var refs []checkRef
-		s := x.compose(prelude, p, -1, opt.TimeoutMS, &refs, pi)
+		// whole-path pass with a short per-check limit; checks it leaves undecided are re-run one by one with the full limit
+		pathMS := opt.TimeoutMS
+		if pathMS > 4000 {
+			pathMS = 4000
+		}
+		s := x.compose(prelude, p, -1, pathMS, &refs, pi)
 		if len(refs) == 0 {
 			continue
 		}
@@ -444,7 +461,7 @@ func (x *Exec) solve(res *FnResult, opt Options) {
 				primary = "z3-new"
 				out, raw, serr = runSolver(primary, j.script, opt.TimeoutMS*len(j.refs)+20000)
 			} else {
-				out, raw, primary, serr = raceSolvers([]string{"z3", "z3-new"}, j.script, j.refs, opt.TimeoutMS*len(j.refs)+20000)
+				out, raw, primary, serr = raceSolvers([]string{"z3", "z3-new"}, j.script, j.refs, 4000*len(j.refs)+20000)
 			}
 			if serr != nil {
 				mu.Lock()
